@@ -69,16 +69,35 @@ class Terms:
 
     def loop(self, st, env, f, depth):
         it, t = st.iter, st.target
-        if not (isinstance(it, ast.Call) and norm(it.func) == 'enumerate' and len(it.args) == 1 and isinstance(t, ast.Tuple) and len(t.elts) == 2
-                and all(isinstance(x, ast.Name) for x in t.elts)):
+        body = st.body
+        if isinstance(it, ast.Call) and norm(it.func) == 'enumerate' and len(it.args) == 1 and isinstance(t, ast.Tuple) and len(t.elts) == 2 \
+                and all(isinstance(x, ast.Name) for x in t.elts):
+            iv, gv = t.elts[0].id, t.elts[1].id
+            src = it.args[0]
+        elif isinstance(it, ast.Call) and norm(it.func) == 'range' and len(it.args) == 1 and isinstance(t, ast.Name) and (
+                (isinstance(it.args[0], ast.Call) and norm(it.args[0].func) == 'len' and len(it.args[0].args) == 1) or
+                (isinstance(it.args[0], ast.Subscript) and isinstance(it.args[0].value, ast.Attribute) and it.args[0].value.attr == 'shape' and const_value(it.args[0].slice) == 0)):
+            # index loop: `for i in range(len(G))` with G[i] standing for the guess
+            src = it.args[0].args[0] if isinstance(it.args[0], ast.Call) else it.args[0].value.value
+            iv, gv = t.id, '__guess_of_index_loop'
+            stxt = norm(src)
+            import copy as _copy
+
+            class _G(ast.NodeTransformer):
+                def visit_Subscript(self, n):
+                    if norm(n.value) == stxt and norm(n.slice) == iv and isinstance(n.ctx, ast.Load):
+                        return ast.copy_location(ast.Name(id=gv, ctx=ast.Load()), n)
+                    self.generic_visit(n)
+                    return n
+            body = [_G().visit(_copy.deepcopy(b)) for b in st.body]
+        else:
             raise Unknown(f'loop `for {norm(t)} in {norm(it)[:40]}` is not `for i, g in enumerate(...)`')
-        iv, gv = t.elts[0].id, t.elts[1].id
-        fact = {'func': f, 'node': st, 'iter_order': self.order_kind(it.args[0], env, f, depth), 'iter_text': norm(it.args[0])}
+        fact = {'func': f, 'node': st, 'iter_order': self.order_kind(src, env, f, depth), 'iter_text': norm(src)}
         lenv = dict(env)
         lenv[gv] = 'guess'
         lenv[iv] = ('index',)
         target = None
-        for b in st.body:
+        for b in body:
             if isinstance(b, ast.Expr) and isinstance(b.value, ast.Constant):
                 continue
             if isinstance(b, ast.Assign) and len(b.targets) == 1 and isinstance(b.targets[0], ast.Name):
@@ -572,7 +591,8 @@ def d2(ctx, prog, regs):
               '(only a range may be converted to an array)', "_base_kwargs['guesses'] = guesses (range converted to array only)", init.where())
     st = [s for s in ast.walk(init.node) if isinstance(s, ast.Assign) and norm(s.targets[0]) == 'self.expected_key_function']
     ctx.check(len(st) == 1 and norm(st[0].value) == 'expected_key_function', 'C07-D2', f'{init.key}::expected_key_function', 'self.expected_key_function is not the argument', 'self.expected_key_function = expected_key_function', init.where())
-    ek = asf.methods.get('compute_expected_key')
+    from .. import normalize as _nz0
+    ek = _nz0.normal(prog, asf.methods.get('compute_expected_key'))
     rets = [r for r in ast.walk(ek.node) if isinstance(r, ast.Return) and r.value is not None and not (isinstance(r.value, ast.Constant) and r.value.value is None)]
     ctx.check(len(rets) == 1 and isinstance(rets[0].value, ast.Call) and norm(rets[0].value.func) == 'self.expected_key_function', 'C07-D2', f'{ek.key}::result',
               'compute_expected_key does not return the expected-key function\'s result', 'returns expected_key_function(**selected metadata)', ek.where())
@@ -581,7 +601,8 @@ def d2(ctx, prog, regs):
               'each parameter of the key function receives the metadata of the same name', ek.where())
     # SelectionFunction.__call__: words on the last axis, nothing else
     sf = prog.need_class(BASE, 'SelectionFunction')
-    call = sf.methods.get('__call__')
+    from .. import normalize as _nz
+    call = _nz.normal(prog, sf.methods.get('__call__'))
     kwp = call.node.args.kwarg.arg
     calls = [c for c in ast.walk(call.node) if isinstance(c, ast.Call) and norm(c.func) == 'self._function']
     ctx.check(len(calls) == 1 and norm(calls[0]) == 'self._function(**self._base_kwargs)', 'C07-D2', f'{call.key}::invoke', 'the wrapped function is not called once with the collected arguments',
